@@ -1067,7 +1067,7 @@ def run(ctx, rep):
     warnings.simplefilter("ignore")
     ok, outp, where = vlib.build_props(ctx, rep, "C14")
     rng = ctx.rng
-    n_rand = 12000 if ctx.thorough else 900
+    n_rand = 12000 if ctx.thorough else 1500
     cases, meta, found = [], [], False
     plans = [("directed", h) for h in directed()] + [("random", rng.randint(6, 20)) for _ in range(n_rand)]
     for mode, payload in plans:
